@@ -11,6 +11,7 @@ reach, and Calls or Drops every submitted job.  All interleavings at atomic-oper
 Tasks.  Helper lemmas and the inductive invariants are in Proofs/Coro*.lean.
 -/
 import YaclibModel.Proofs.CoroProgress
+import YaclibModel.Proofs.CoroMulti4
 import YaclibModel.Extracted.Kernels
 import YaclibModel.Model.Skeletons
 
@@ -368,6 +369,192 @@ example : ∃ s, Reachable w4 s ∧ s.resumed.map (fun r => (r.ctx, r.allDone)) 
   exact ⟨_, h12, rfl, rfl, rfl⟩
 
 end Yaclib.Props.C13
+
+/-! ### several coroutines: the product system (Model/CoroMulti.lean)
+
+The one-coroutine theorems above speak about ONE coroutine against an environment.  `Yaclib.CoroMulti` is the system of a finite
+family of coroutines sharing the awaited objects (global words whose callbacks are tagged with their owner); a step of the system is
+the step of one coroutine, or a fulfilment / external subscription / Task move.  `projection_sound` (Proofs/CoroMulti4.lean): every
+projection of a reachable state of the system is a reachable state of the one-coroutine model, because a step of coroutine i is,
+for every other coroutine k, an `envPush` of k's model or invisible (`other_step_is_env`).  The trace validator, which keeps one model
+state per coroutine of a run and feeds every line to the projections it concerns, is the executable counterpart of that theorem.
+So everything proved above holds for every coroutine of every run of the system: -/
+namespace Yaclib.Props.C13.Multi
+open Yaclib.Coro Yaclib.CoroMulti
+
+/-- the hypotheses on a family: unique futures and Tasks have one owner, a Task is not shared; every member is well-formed -/
+structure OK (W : MWorkload) : Prop where
+  g : W.GWF
+  wf : ∀ i, (W.proj i).WF
+  wft : ∀ i, (W.proj i).WFT
+
+variable {W : MWorkload} {S : MState}
+
+theorem projection (hok : OK W) (h : MReachable W S) (i : Nat) : Reachable (W.proj i) (S.proj W i) :=
+  projection_sound hok.g hok.wf hok.wft h i
+
+theorem multi_resume_once (hok : OK W) (h : MReachable W S) (i : Nat) :
+    (S.cor i).resumed.map (·.k) = List.range (S.cor i).k :=
+  by have h1 := C13.resume_once (hok.wf i) (hok.wft i) (projection hok h i); exact h1
+
+theorem multi_resume_after_all_complete (hok : OK W) (h : MReachable W S) (i : Nat) :
+    ∀ r ∈ (S.cor i).resumed, r.allDone = true :=
+  by have h1 := C13.resume_after_all_complete (hok.wf i) (hok.wft i) (projection hok h i); exact h1
+
+theorem multi_resume_outcome (hok : OK W) (h : MReachable W S) (i : Nat) :
+    ∀ r ∈ (S.cor i).resumed, r.got = wantOf (W.proj i) r.op :=
+  by have h1 := C13.resume_outcome (hok.wf i) (hok.wft i) (projection hok h i); exact h1
+
+theorem multi_resume_context (hok : OK W) (h : MReachable W S) (i : Nat) :
+    ∀ r ∈ (S.cor i).resumed, r.op.kind ≠ .current → ctxOk r.op.kind r.ctx = true ∧ (∀ j, r.ctx = .cell j → j ∈ r.op.cells) :=
+  by have h1 := C13.resume_context (hok.wf i) (hok.wft i) (projection hok h i); exact h1
+
+theorem multi_executor_after_await (hok : OK W) (h : MReachable W S) (i : Nat) :
+    ∀ r ∈ (S.cor i).resumed, ∀ j, r.ctx = .cell j → (W.gcell j).lazy = false → r.exAfter = (W.gcell j).exec0 := by
+  intro r hr j hc hl
+  have := C13.executor_after_await (hok.wf i) (hok.wft i) (projection hok h i) r hr j hc (by rw [proj_cell]; exact hl)
+  rw [this, proj_cell]; rfl
+
+theorem multi_published_at_most_once (hok : OK W) (h : MReachable W S) (i : Nat) : (S.cor i).published.length ≤ 1 :=
+  by have h1 := C13.published_at_most_once (hok.wf i) (hok.wft i) (projection hok h i); exact h1
+
+theorem multi_stopped_executor_stop_error (hok : OK W) (h : MReachable W S) (i : Nat) (hd : (S.cor i).dropped = true) :
+    (S.cor i).result = some .err ∧ (∀ r ∈ (S.cor i).published, r = .err) ∧ (∀ r ∈ (S.cor i).resumed, r.k < (S.cor i).k) := by
+  have := C13.stopped_executor_stop_error (hok.wf i) (hok.wft i) (projection hok h i) hd
+  exact ⟨this.2.1, this.2.2.1, this.2.2.2.2⟩
+
+theorem multi_frame_destroyed_once (hok : OK W) (h : MReachable W S) (i : Nat) :
+    (S.cor i).frameDestroyed ≤ 1 ∧ (S.cor i).localDtors ≤ (W.co i).locals ∧
+    ((S.cor i).pc = .gone → (S.cor i).frameDestroyed = 1 ∧ (S.cor i).localDtors = (W.co i).locals) := by
+  have := C13.frame_destroyed_once (hok.wf i) (hok.wft i) (projection hok h i)
+  exact ⟨this.1, this.2.1, this.2.2.1⟩
+
+def isFulfilled (c : GCell) : Bool :=
+  match c.word with
+  | .gresult _ => true
+  | .gopen _ _ => false
+
+/-- **an awaited object that is not a Task is fulfilled once and for all**: no step of the system fulfils it again or un-fulfils it -/
+theorem fulfilled_once (hok : OK W) (h : MReachable W S) {l : MLabel} {S' : MState} (hs : MStep W S l S') {j : Nat}
+    (hl : (W.gcell j).lazy = false) (hf : isFulfilled (S.cells j) = true) :
+    isFulfilled (S'.cells j) = true ∧ l ≠ .prod j := by
+  cases hs with
+  | prod j' cbs e hw hl' =>
+      by_cases hjj : j = j'
+      · subst hjj; simp [isFulfilled, hw] at hf
+      · exact ⟨by simp only [gupd_other _ _ _ _ hjj]; exact hf, fun h => hjj (by cases h; rfl)⟩
+  | ext j' cbs e hw hs' hx =>
+      by_cases hjj : j = j'
+      · subst hjj; simp [isFulfilled, hw] at hf
+      · exact ⟨by simp only [gupd_other _ _ _ _ hjj]; exact hf, by simp⟩
+  | swap j' e hl' hs' =>
+      refine ⟨?_, by simp⟩
+      by_cases hjj : j = j'
+      · subst hjj; simp only [gupd_same]; exact hf
+      · simp only [gupd_other _ _ _ _ hjj]; exact hf
+  | co i l s' hi hl' hs' =>
+      refine ⟨?_, by simp⟩
+      have ha := (inv_reachable (hok.wf i) (projection hok h i)).a
+      cases l with
+      | cas p o =>
+          cases o <;> simp only [gcellsAfter] <;> (try exact hf)
+          cases hcur : curCell (S.cor i) p with
+          | none => exact hf
+          | some j' =>
+            simp only
+            by_cases hjj : j = j'
+            · subst hjj
+              simp only [gupd_same, isFulfilled, pushCb] at hf ⊢
+              split at hf <;> simp_all
+            · simp only [gupd_other _ _ _ _ hjj]; exact hf
+      | fire j' p =>
+          simp only [gcellsAfter]
+          by_cases hjj : j = j'
+          · subst hjj
+            simp only [gupd_same, isFulfilled, eraseCb] at hf ⊢
+            split at hf <;> simp_all
+          · simp only [gupd_other _ _ _ _ hjj]; exact hf
+      | tstore =>
+          simp only [gcellsAfter]
+          cases hcur : curCell (S.cor i) 0 with
+          | none => exact hf
+          | some j' =>
+            simp only
+            by_cases hjj : j = j'
+            · -- a Task callback is stored only on a Task
+              exfalso
+              subst hjj
+              cases hs' with
+              | tstore op rest j'' hp ht hj =>
+                  have hcur' : curCell (S.proj W i) 0 = some j := hcur
+                  simp only [curCell, ht] at hcur'
+                  rw [hj] at hcur'; cases hcur'
+                  have hpk := ha.pc_kind op rest ht
+                  rw [hp] at hpk
+                  have hk : op.kind = .task := by simpa [pcKindOk] using hpk
+                  have := (wft_lazy (hok.wft i) ha ht (List.mem_iff_getElem?.mpr ⟨0, hj⟩)).mp hk
+                  rw [proj_cell] at this
+                  have hlz : (W.gcell j).lazy = true := this
+                  rw [hl] at hlz; cases hlz
+            · simp only [gupd_other _ _ _ _ hjj]; exact hf
+      | _ => exact hf
+
+/-- **every awaiter of a SharedFuture is resumed exactly once, after its fulfilment**: for every coroutine of the family the
+    resumption records are exactly the co_awaits it has passed (each once, none missing), and each was made when everything it
+    awaited was fulfilled — which, for everything but Tasks, happens once and for all (`fulfilled_once`) -/
+theorem shared_future_awaiters_each_once (hok : OK W) (h : MReachable W S) :
+    ∀ i, (S.cor i).resumed.map (·.k) = List.range (S.cor i).k ∧ (∀ r ∈ (S.cor i).resumed, r.allDone = true) :=
+  fun i => ⟨multi_resume_once hok h i, multi_resume_after_all_complete hok h i⟩
+
+/-! non-vacuity: two coroutines `co_await Await(sf)` on one SharedFuture, driven through `next` of both projections -/
+
+def W2 : MWorkload :=
+  { n := 2, cells := [{ shared := true }],
+    co := fun _ => { prog := [⟨.single, [0], false⟩], ret := .val 7, catches := false, locals := 0 } }
+
+theorem mstep_co {i : Nat} {l : Label} {s' : State} (h : MReachable W S) (hi : i < W.n) (hl : isEnvL l = false)
+    (hn : next (S.proj W i) l = some s') : MReachable W ⟨gcellsAfter S i l, cupd S.cor i s'⟩ :=
+  .step h (.co S i l s' hi hl (next_sound hn))
+
+/-- coroutine 0 registers; coroutine 1 finds a foreign callback (`await_ready` false since c9c07bc), registers behind it; the
+    fulfilment runs both callbacks: both coroutines are resumed exactly once, after the fulfilment, and the word ends empty of
+    callbacks -/
+example : ∃ S, MReachable W2 S ∧ (S.cor 0).resumed.map (fun r => (r.k, r.allDone)) = [(0, true)] ∧
+    (S.cor 1).resumed.map (fun r => (r.k, r.allDone)) = [(0, true)] ∧ (S.cells 0).word = .gresult [] := by
+  have h0 : MReachable W2 (minit W2) := .init
+  have h1 := mstep_co h0 (i := 0) (l := .start) (s' := _) (by decide) rfl rfl
+  have h2 := mstep_co h1 (i := 0) (l := .rdLoad .empty) (s' := _) (by decide) rfl rfl
+  have h3 := mstep_co h2 (i := 0) (l := .ready false) (s' := _) (by decide) rfl rfl
+  have h4 := mstep_co h3 (i := 0) (l := .regLoad 0 .empty) (s' := _) (by decide) rfl rfl
+  have h5 := mstep_co h4 (i := 0) (l := .cas 0 .ok) (s' := _) (by decide) rfl rfl
+  have h6 := mstep_co h5 (i := 1) (l := .start) (s' := _) (by decide) rfl rfl
+  have h7 := mstep_co h6 (i := 1) (l := .rdLoad .cbs) (s' := _) (by decide) rfl rfl
+  have h8 := mstep_co h7 (i := 1) (l := .ready false) (s' := _) (by decide) rfl rfl
+  have h9 := mstep_co h8 (i := 1) (l := .regLoad 0 .cbs) (s' := _) (by decide) rfl rfl
+  have h10 := mstep_co h9 (i := 1) (l := .cas 0 .ok) (s' := _) (by decide) rfl rfl
+  have h11 : MReachable W2 _ := .step h10 (.prod _ 0 [(1, 0), (0, 0)] false rfl (Or.inl rfl))
+  have h12 := mstep_co h11 (i := 1) (l := .fire 0 0) (s' := _) (by decide) rfl rfl
+  have h13 := mstep_co h12 (i := 1) (l := .resume none true) (s' := _) (by decide) rfl rfl
+  have h14 := mstep_co h13 (i := 0) (l := .fire 0 0) (s' := _) (by decide) rfl rfl
+  have h15 := mstep_co h14 (i := 0) (l := .resume none true) (s' := _) (by decide) rfl rfl
+  exact ⟨_, h15, rfl, rfl, rfl⟩
+
+theorem W2_ok : OK W2 := by
+  refine ⟨⟨?_, ?_⟩, ?_, ?_⟩
+  · intro j hs i k hi hk
+    cases j with
+    | zero => simp [W2, MWorkload.gcell] at hs
+    | succ j => simp [W2, mentions] at hi
+  · intro j hl
+    cases j <;> simp [W2, MWorkload.gcell] at hl
+  · intro i op hop
+    simp [MWorkload.proj, W2] at hop; subst hop; simp [Op.wf]
+  · intro i op hop j hj
+    simp [MWorkload.proj, W2] at hop; subst hop
+    simp at hj; subst hj
+    simp [Workload.cell, MWorkload.proj, W2, MWorkload.cellW, MWorkload.gcell]
+
+end Yaclib.Props.C13.Multi
 
 /-! ### tie to the source (T2): the kernels this model was written from are unchanged.
 `Extracted/Kernels.lean` is regenerated from /repo on every check run. -/
